@@ -14,6 +14,7 @@
 -/
 import StVerif.Lemmas.Split
 import StVerif.Lemmas.Utf8Split
+import StVerif.Lemmas.KernelBridge
 
 namespace StVerif.Props.C09
 open StVerif StVerif.Split StVerif.Search StVerif.Lemmas.Split
@@ -312,5 +313,14 @@ example : tokenize [32, 97, 98, 32, 32, 99] Slice.whitespace = .ok [[97, 98], [9
 example : Split.replace .insensitive [97, 65, 97, 98] [97, 97] [120] = .ok [120, 97, 98] := by decide
 example : Fits .sensitive [97, 97, 97] [97, 97] [98] := ⟨by decide, by decide⟩
 example : pieceOk [44] [97, 0xFF] := ⟨by decide, by decide⟩
+
+/-! ### tie to the source (tools/gen_kernels.py) -/
+
+/-- `cl_fast_lower` / `cl_fast_upper` as translated from include/st_string_priv.h on every run are the model's case
+    folds on every `char` value (the byte seen as the signed `char` the C++ receives) -/
+theorem case_fold_is_model : ∀ b, b < 256 →
+    StVerif.Generated.Kernels.cl_fast_lower (KernelBridge.toChar b) = .ok (KernelBridge.toChar (StVerif.Search.lower b)) ∧
+    StVerif.Generated.Kernels.cl_fast_upper (KernelBridge.toChar b) = .ok (KernelBridge.toChar (StVerif.Search.upper b)) :=
+  fun b hb => ⟨KernelBridge.cl_fast_lower_eq b hb, KernelBridge.cl_fast_upper_eq b hb⟩
 
 end StVerif.Props.C09
